@@ -99,6 +99,20 @@ async def one(cfg):
     return ev, raised
 
 
+async def late_registration():
+    from taskiq import InMemoryBroker, TaskiqDepends, Context
+    from taskiq.receiver import Receiver
+    from taskiq.message import TaskiqMessage
+    from taskiq.abc.broker import AsyncBroker
+    AsyncBroker.global_task_registry = {}
+    b = InMemoryBroker(); r = Receiver(b, max_async_tasks=2, run_startup=False); seen = []
+    async def t(x: int, ctx: Context = TaskiqDepends()): seen.append((x, ctx.message.task_id, True))
+    b.register_task(t, task_name='late')
+    for i in range(2):
+        try: await r.callback(b.formatter.dumps(TaskiqMessage(task_id=f'id-{i}', task_name='late', labels={}, labels_types=None, args=['41'], kwargs={})).message)
+        except BaseException as e: seen.append((type(e).__name__, f'id-{i}', False))
+    return seen
+
 async def isolation(shape):
     """C06: two overlapping executions of one task; every dependency (cached, un-cached, nested, sync/async/generator, resolved before or
     after a suspension point) must observe its own message's Context."""
@@ -261,6 +275,11 @@ def run(sc):
                     ev, raised = asyncio.run(one(cfg)); n += 1
                     fl = safety_monitor(cfg, ev, raised)
                     if fl: fails.append({'key': json.dumps(cfg, sort_keys=True), 'config': cfg, 'failed_clauses': fl, 'trace': [list(map(str, e)) for e in ev]})
+    # a task registered AFTER the receiver was built (dynamic registration, InMemoryBroker): it is prepared lazily on its first delivery, which must behave like any other
+    got = asyncio.run(late_registration()); n += 1
+    if got != [(41, 'id-0', True), (41, 'id-1', True)]:
+        fails.append({'key': 'late-registration', 'config': {'registered': 'after Receiver(...)', 'sent_args': ['41'], 'annotation': 'int'},
+                      'failed_clauses': [f"C08: a task `def t(x: int, ctx: Context)` registered after the receiver was built was sent the argument '41' twice; (received x, Context.task_id, dependency resolved) per delivery = {got}, expected the converted 41 and its own Context both times"], 'trace': [str(got)]})
     for shape in ('uncached', 'cached', 'async_uncached', 'generator_uncached', 'nested_uncached', 'override', 'ctx_only_nested'):
         bad, seen = asyncio.run(isolation(shape)); n += 1
         if bad or len(seen) != 2: fails.append({'key': 'isolation:' + shape, 'config': {'overlapping_messages': ['A', 'B'], 'dependency': shape},
